@@ -353,6 +353,13 @@ impl TryFrom<&mut Peekable<Lexer>> for ParserNode {
                         Type::UpperArith(inst) => {
                             let rd = lex.get_reg()?;
                             let mut imm = lex.get_imm()?;
+                            // The operand is the 20-bit value of the upper bits
+                            if !(0..=0xF_FFFF).contains(&imm.get().value()) {
+                                return Err(Expected(
+                                    vec![ExpectedType::Imm],
+                                    Box::new(imm.token().clone()),
+                                ));
+                            }
                             let new_imm = Imm::new(imm.get().value() << 12);
                             // shift left by 12
                             *imm.get_mut() = new_imm;
